@@ -554,3 +554,119 @@ func ruleNumberSign(c *Ctx) {
 	visit(start, 0)
 	c.census("N-SIGN", "zero-digit tests in the number normaliser", n, 1)
 }
+
+// ruleBalanceReal (B-REAL): the balance check looks at real postings only: every read of a posting's amount below
+// the balance check is made on a posting taken from a list that passed the virtual-posting filter, or is itself
+// control dependent on a test of that posting's Virtual field (an unbalanced-virtual posting without an amount
+// is not "the posting whose amount is inferred").
+func ruleBalanceReal(c *Ctx) {
+	apk := c.P.SSAPkg("internal/analyzer")
+	ci := buildConc(c)
+	var entry *ssa.Function
+	for _, f := range c.P.ModuleFuncs() {
+		if f.Pkg != apk || f.Signature.Recv() != nil || f.Signature.Params().Len() != 1 || f.Signature.Results().Len() != 1 {
+			continue
+		}
+		if typeHasSuffix(f.Signature.Params().At(0).Type(), "ast.Transaction") && typeHasSuffix(f.Signature.Results().At(0).Type(), "analyzer.BalanceResult") {
+			entry = f
+		}
+	}
+	if entry == nil {
+		c.undecided("B-REAL", "analyzer", "balance check", token.NoPos, "function (*ast.Transaction) *BalanceResult not found")
+		return
+	}
+	readsVirtual := func(cond ssa.Value) bool {
+		for v := range backSlice(cond) {
+			switch x := v.(type) {
+			case *ssa.FieldAddr:
+				if typeHasSuffix(x.X.Type(), "ast.Posting") && fieldVarOfAddr(x).Name() == "Virtual" {
+					return true
+				}
+			case *ssa.Field:
+				if st, ok := x.X.Type().Underlying().(*types.Struct); ok && typeHasSuffix(x.X.Type(), "ast.Posting") && st.Field(x.Field).Name() == "Virtual" {
+					return true
+				}
+			}
+		}
+		return false
+	}
+	// filters: functions returning []ast.Posting whose appends depend on a test of Virtual
+	filters := map[*ssa.Function]bool{}
+	for _, f := range c.P.ModuleFuncs() {
+		if f.Pkg != apk || f.Signature.Results().Len() != 1 {
+			continue
+		}
+		sl, ok := f.Signature.Results().At(0).Type().Underlying().(*types.Slice)
+		if !ok || !typeHasSuffix(sl.Elem(), "ast.Posting") {
+			continue
+		}
+		for _, b := range f.Blocks {
+			for _, ins := range b.Instrs {
+				if call, ok := ins.(*ssa.Call); ok {
+					if bi, ok := call.Call.Value.(*ssa.Builtin); ok && bi.Name() == "append" {
+						for _, cc := range controlDeps(b) {
+							if readsVirtual(cc.Cond) {
+								filters[f] = true
+							}
+						}
+					}
+				}
+			}
+		}
+	}
+	reach := Reach(ci.g, []*ssa.Function{entry}, true)
+	n := 0
+	for _, f := range c.P.ModuleFuncs() {
+		if !reach[f] || f.Pkg != apk || filters[f] {
+			continue
+		}
+		for _, b := range f.Blocks {
+			for _, ins := range b.Instrs {
+				var base ssa.Value
+				switch x := ins.(type) {
+				case *ssa.FieldAddr:
+					if typeHasSuffix(x.X.Type(), "ast.Posting") && fieldVarOfAddr(x).Name() == "Amount" {
+						base = x.X
+					}
+				case *ssa.Field:
+					if st, ok := x.X.Type().Underlying().(*types.Struct); ok && typeHasSuffix(x.X.Type(), "ast.Posting") && st.Field(x.Field).Name() == "Amount" {
+						base = x.X
+					}
+				}
+				if base == nil {
+					continue
+				}
+				n++
+				ok := false
+				for v := range sliceUpN(ci, base, f, 4) {
+					call, isCall := v.(*ssa.Call)
+					if !isCall {
+						continue
+					}
+					if filters[call.Call.StaticCallee()] {
+						ok = true
+					}
+					// the filtered list built in place: an append that is control dependent on a test of Virtual
+					if bi, isB := call.Call.Value.(*ssa.Builtin); isB && bi.Name() == "append" {
+						for _, cc := range controlDeps(call.Block()) {
+							if readsVirtual(cc.Cond) {
+								ok = true
+							}
+						}
+					}
+				}
+				if !ok {
+					for _, cc := range controlDeps(b) {
+						if readsVirtual(cc.Cond) {
+							ok = true
+						}
+					}
+				}
+				c.check(ok, "B-REAL", funcName(f), "amount read on a real posting", ins.Pos(),
+					"the posting comes from the filtered list of real postings, or the read is behind a test of its Virtual field",
+					"the balance check reads the amount of a posting that has not passed the virtual-posting filter: an unbalanced-virtual posting without an amount is counted as the inferred one (or a second inferred one), so an unbalanced transaction is accepted or a valid one rejected")
+			}
+		}
+	}
+	c.census("B-REAL", "reads of a posting's amount below the balance check", n, 2)
+}
